@@ -3,11 +3,34 @@ C04 — Streams always make progress while the application keeps reading.
 Progress is stated as safety theorems plus a decreasing measure, over the link model (every action
 sequence, every window `W ≥ 1` and threshold `th ≤ W`), and the endpoint-model facts that every pair
 of accepted options yields such parameters and that a slow reader delays only its own stream.
-Fairness of the real scheduler is assumed (a delivery / read that is enabled eventually happens).
+
+The liveness conclusion itself is the headline theorem `progress` (with its parts
+`productive_schedule_bounded`, `no_infinite_productive_schedule`, `writer_unblocked_when_work_runs_out`,
+`every_byte_becomes_readable`): a termination statement that holds for EVERY schedule of deliveries,
+acknowledgement deliveries and reads — no fairness assumption is needed for the bound; fairness of the
+real scheduler (a delivery / read that has something to do eventually happens) is only what makes the
+real system take those steps at all.
+
+From one direction of one stream to two whole endpoints: `pair_no_stall` and
+`pair_all_written_is_read_at_quiescence` below are the blocked-writer and the all-read facts for
+`Penguin.Pair` (two endpoint models, any number of flows, every interleaving). They are obtained
+through the relation `DirRel` of `Lemmas/PairInv.lean`: for one direction of a flow established on both
+endpoints of a reachable pair state there is a link state `l` with `Inv l` whose fields are the
+projection of the pair onto that direction (the writer object's credit and finished flag, the
+`Push`/`Finish`/`Reset` frames of the flow on the path to the peer, the reader object's queue, buffer
+and counter, the `Acknowledge` frames of the flow on the path back, the write and read logs).
+`Inv l` is the only hypothesis the analysis of the state "work has run out" uses, and
+`Lemmas/PairDir.lean` shows that a step of the pair that concerns the flow acts on `l` as the
+corresponding `Link.step` (processing a `Push`/`Finish`/`Reset` of the flow: `deliver`; a read:
+`read`; processing an `Acknowledge` of the flow: `deliverAck`), while moving a frame from an outbound
+queue onto the transport leaves `l` unchanged. So the new theorems bound, per flow and direction, the
+number of frame-processing steps and reads of the pair that concern it, *in the link model*; a step
+count for the pair as a whole (transmissions, other flows) is not stated.
 -/
 import Penguin.Model.Link
 import Penguin.Model.Mux
 import Penguin.Lemmas.Link
+import Penguin.Lemmas.LinkProgress
 import Penguin.Lemmas.MuxStep
 import Penguin.Lemmas.PairCor
 
@@ -47,6 +70,120 @@ theorem blocked_measure (s : St) (h : Inv s) (n : Nat) :
     (s.buf = [] → s.rxq ≠ [] → mu (step s (.read n)).1 < mu s) ∧
     (s.acks ≠ [] → mu (step s .deliverAck).1 < mu s) :=
   ⟨mu_deliver s, mu_read s n h, mu_deliverAck s⟩
+
+/-! ## Bounded progress under every schedule
+
+`productive s a` (Lemmas/LinkProgress.lean): action `a` of the transport or of the reader has something
+to do in `s` — `.deliver` with a non-empty wire, `.deliverAck` with an `Acknowledge` on its way back,
+`.read n` with `n > 0` and an unread remainder or a queued frame. The writer's `write`/`shutdown`/`abort`
+are the environment and never count. `Productive s as`: every action of `as` is productive in the
+state in which it is executed. `WorkDone s`: no action is productive in `s`.
+`nu s = 3·|wire| + 2·|rxq| + |acks| + |buf| + bytes queued + bytes in flight`. -/
+
+/-- Every productive action strictly decreases `nu` — in every state (reads that take part of a
+    buffer, empty frames skipped, deliveries to a closed or full receiver included). -/
+theorem productive_step_decreases (s : St) (a : Act) (hp : productive s a = true) : nu (step s a).1 < nu s :=
+  nu_decreases s a hp
+
+/-- No schedule of deliveries, acknowledgement deliveries and reads — fair or not, chosen by an
+    adversary or not — can run for more than `nu s` steps without running out of work; more exactly
+    every step pays one unit of what is left of the measure. Holds from every state, so in particular
+    from every state reachable from `init W th`. -/
+theorem productive_schedule_bounded (s : St) (as : List Act) (h : Productive s as) :
+    as.length ≤ nu s ∧ as.length + nu (run s as) ≤ nu s :=
+  ⟨productive_length_le s as h, productive_run_nu s as h⟩
+
+/-- The same for infinite schedules `f : Nat → Act`: there is no infinite productive schedule — within
+    the first `nu s + 1` actions one finds nothing to do. -/
+theorem no_infinite_productive_schedule (s : St) (f : Nat → Act) :
+    ∃ k, k ≤ nu s ∧ Productive s (pre f k) ∧ productive (run s (pre f k)) (f k) = false :=
+  schedule_hits_unproductive s f
+
+/-- Maximal productive schedules exist from every state (a work-conserving scheduler produces one),
+    so the theorems about the state "work has run out" are about states that are reached. -/
+theorem maximal_schedule_exists (s : St) : ∃ as, Productive s as ∧ WorkDone (run s as) :=
+  exists_maximal s
+
+/-- When the work runs out the writer is unblocked: in a reachable state in which no delivery,
+    acknowledgement delivery or read (with room) has anything to do, the writer has credit — all of the
+    window except the frames the reader has not acknowledged yet, fewer than the threshold — and, if the
+    receiver's slot is alive, the sender has not finished and a pending write of a non-empty payload
+    returns `wrote` at once. (`overrun` is false in every reachable state, `Inv.hover`; without `rAlive`
+    the stream was finished or aborted by the sender itself and the write reports `brokenPipe`.) -/
+theorem writer_unblocked_when_work_runs_out (W th : Nat) (hW : 0 < W) (hth : th ≤ W) (as : List Act)
+    (hd : WorkDone (run (init W th) as)) :
+    let s := run (init W th) as
+    0 < s.credit ∧ s.credit + s.since = W ∧ s.overrun = false ∧
+    (s.rAlive = true → s.sFin = false ∧ ∀ d : Bytes, d ≠ [] → (step s (.write d)).2 = .wrote d.length) := by
+  have hi := run_inv _ as (init_inv W th hW hth)
+  have hc := workDone_credit _ hi hd
+  rw [run_W] at hc
+  exact ⟨hc.1, hc.2, hi.hover, fun hal => ⟨workDone_open _ hi hd hal, workDone_write _ hi hd hal⟩⟩
+
+/-- Every byte written becomes readable — and has been read: in a reachable state in which the work
+    has run out, the reads have returned exactly the bytes the successful writes carried. -/
+theorem every_byte_becomes_readable (W th : Nat) (hW : 0 < W) (hth : th ≤ W) (as : List Act)
+    (hd : WorkDone (run (init W th) as)) :
+    (run (init W th) as).delivered = (run (init W th) as).accepted :=
+  workDone_delivered _ (run_inv _ as (init_inv W th hW hth)) hd
+
+/-- **Progress.** Take any state `s` reachable from `init W th` (`0 < W`, `th ≤ W`; any mix of writes
+    longer than the window, deliveries, reads, shutdown before it) and any schedule `sched` of deliveries,
+    acknowledgement deliveries and reads in which every action has something to do. Then
+    * the schedule is at most `nu s` steps long (so every such schedule can be extended only finitely often,
+      and a maximal one exists: last clause);
+    * if it is maximal (nothing is productive in the state `t` it ends in), then in `t` the reads have
+      returned everything that was written up to `s` (`t.delivered = s.accepted`), the writer has credit, and —
+      the receiver's slot being alive — a pending write of a non-empty payload completes (`wrote`). -/
+theorem progress (W th : Nat) (hW : 0 < W) (hth : th ≤ W) (before sched : List Act)
+    (hp : Productive (run (init W th) before) sched) :
+    let s := run (init W th) before
+    let t := run s sched
+    sched.length ≤ nu s ∧
+    (WorkDone t →
+      t.delivered = s.accepted ∧ 0 < t.credit ∧
+      (t.rAlive = true → ∀ d : Bytes, d ≠ [] → (step t (.write d)).2 = .wrote d.length)) ∧
+    (∃ more, Productive t more ∧ WorkDone (run t more)) := by
+  intro s t
+  refine ⟨productive_length_le s sched hp, fun hd => ?_, exists_maximal t⟩
+  have ht : t = run (init W th) (before ++ sched) := (run_append _ _ _).symm
+  have hi : Inv t := ht ▸ run_inv _ _ (init_inv W th hW hth)
+  refine ⟨?_, (workDone_credit t hi hd).1, fun hal => workDone_write t hi hd hal⟩
+  rw [workDone_delivered t hi hd]
+  exact productive_run_accepted s sched hp
+
+/-! Non-vacuity. Window 2, threshold 2: two writes (3 bytes and 1 byte) exhaust the window; the writer
+    is blocked (`pending`), `nu = 10`. -/
+private def blocked2 : St := run (init 2 2) [.write [1, 2, 3], .write [4]]
+example : blocked2.credit = 0 ∧ (step blocked2 (.write [5])).2 = .pending ∧ nu blocked2 = 10 := by decide
+/-- A productive schedule from the blocked state with reads that take part of a frame (room for 2 bytes);
+    it is maximal, 6 ≤ 10 steps long, and ends with everything read and the writer unblocked. -/
+private def sched2 : List Act := [.deliver, .deliver, .read 2, .read 2, .read 2, .deliverAck]
+example : Productive blocked2 sched2 := by decide
+example : WorkDone (run blocked2 sched2) := (workDone_iff _).2 (by decide)
+example : (run blocked2 sched2).delivered = [1, 2, 3, 4] ∧ (run blocked2 sched2).rAlive = true ∧
+    (run blocked2 sched2).credit = 2 ∧ (step (run blocked2 sched2) (.write [5])).2 = .wrote 1 := by decide
+/-- The theorems applied to this reachable state (the schedule appended to the two writes). -/
+example : 0 < (run (init 2 2) ([.write [1, 2, 3], .write [4]] ++ sched2)).credit :=
+  (writer_unblocked_when_work_runs_out 2 2 (by decide) (by decide) _ ((workDone_iff _).2 (by decide))).1
+example : sched2.length ≤ nu blocked2 ∧ (run blocked2 sched2).delivered = blocked2.accepted :=
+  have h := progress 2 2 (by decide) (by decide) [.write [1, 2, 3], .write [4]] sched2 (by decide)
+  ⟨h.1, (h.2.1 ((workDone_iff _).2 (by decide))).1⟩
+/-- Another schedule (deliveries and reads interleaved, the acknowledgement last) is productive too;
+    one more `.deliverAck` would not be, nor is a read without room. -/
+example : Productive blocked2 [.deliver, .read 9, .deliver, .read 1, .deliverAck] := by decide
+example : ¬ Productive blocked2 (sched2 ++ [.deliverAck]) := by decide
+example : productive blocked2 (.read 0) = false ∧ productive blocked2 (.read 1) = false ∧
+    productive blocked2 .deliver = true := by decide
+/-- `productive_step_decreases` on a partial read: 2 of 3 buffered bytes. -/
+example : nu (run blocked2 [.deliver, .deliver]) = 8 ∧ nu (run blocked2 [.deliver, .deliver, .read 2]) = 4 ∧
+    nu (run blocked2 [.deliver, .deliver, .read 2, .read 2]) = 3 := by
+  decide
+/-- The state after a sender-side shutdown: the work runs out with the receiver's slot closed; the writer
+    still holds credit, all bytes were read, and a write reports `brokenPipe` (hence the `rAlive` premise). -/
+example : WorkDone (run (init 2 2) [.write [1], .shutdown, .deliver, .deliver, .read 9]) := (workDone_iff _).2 (by decide)
+example : (run (init 2 2) [.write [1], .shutdown, .deliver, .deliver, .read 9]).rAlive = false ∧
+    (step (run (init 2 2) [.write [1], .shutdown, .deliver, .deliver, .read 9]) (.write [5])).2 = .brokenPipe := by decide
 
 open Penguin.Mux in
 /-- Isolation: a stream whose reader is slow or absent delays only itself. Processing `Push`,
